@@ -3,6 +3,7 @@ import RlibModel.Lemmas.F80Soft
 import RlibModel.Lemmas.F80Round
 import RlibModel.Lemmas.F80Encode
 import RlibModel.Lemmas.F80Exact
+import RlibModel.Lemmas.F80Prog
 /-!
 # C18 — f80 arithmetic correctly rounded; comparisons follow IEEE order
 
@@ -24,6 +25,11 @@ Part 3: the arithmetic is "the exact real result rounded once": `roundRat f z q`
 model's class-level operations are `roundRat` of the exact rational sum / difference / product / quotient / value, with
 the IEEE sign of an exact zero; `*_special`: the ∞/NaN tables; `add_bits_exact …`: the same for the decoded result bytes;
 `spec_add_eq …`: the independent fraction-arithmetic specification printed by the driver as `S` equals the model (`M`).
+
+Part 4 (wave 3): programs over four live `f80` objects whose results are fed back (`Model/F80Prog.lean`): for every
+step the view the driver prints of the model equals the step's specification (`prog_step_view`), significands stay below
+`2^64` (`prog_step_wf`), hence for whole programs (`prog_run_view`); the provided / derived trait methods (`!=`, `Clone`,
+`clone_from`, `Copy`, `Default`) are the identity / the negation they are defined to be.
 
 What the FPU instructions themselves do (`fcomi`/`fucomi` flag outcome, `fadd` … `fstp`) is *modelled*
 (by `fcomi`, `add` …) and compared with the hardware on every check; it is not verified here.
@@ -355,6 +361,84 @@ theorem f64_roundtrip_nan (x : F64) (hn : isNaN64 x = true) : isNaN64 (toF64 (of
   rw [hc]
   decide
 
+
+/-! ## Part 4 — programs over several live objects, results fed back (wave 3) -/
+
+theorem binop_spec_eq (o : BinOp) (a b : F80) : o.spec a b = o.model a b := by
+  cases o
+  · exact spec_add_eq a b
+  · exact spec_sub_eq a b
+  · exact spec_mul_eq a b
+  · exact spec_div_eq a b
+
+/-- One step of a register program: the view of the model's step (what `./check` compares with the implementation's view)
+    is the specification of that step - exact fraction arithmetic rounded once for `+ - * /` and their `op=` forms, the sign
+    flip for `-x`, `specAbs / specMin / specMax` as values, the correctly rounded `f64` and its exact widening for the round
+    trip, the IEEE relations on the operand classes (also when both operands are the same object), the identity for
+    `Copy / clone / clone_from`, the literals for `ZERO / ONE / default`, nothing for a repeated `f80_init()`. -/
+theorem prog_step_view (R : Regs) (op : Op) (h : R.wf) : (stepM R op).view = stepS R op := by
+  cases op with
+  | bin o d a b => simp only [stepM, stepS, binop_spec_eq]
+  | asg o d b => simp only [stepM, stepS, binop_spec_eq]
+  | neg d a => rfl
+  | abs d a =>
+    simp only [stepM, stepS]
+    congr 2
+    cases hn : (classify (R a).v).isNaN
+    · exact abs_view _ (h a) (by rw [isNaN_iff]; exact hn)
+    · exact abs_view_nan _ hn
+  | min d a b =>
+    simp only [stepM, stepS]
+    cases hl : ((R a).loose || (R b).loose || isNaN (R a).v || isNaN (R b).v)
+    · simp only [Bool.or_eq_false_iff] at hl
+      simp only [hide, Bool.false_eq_true, if_false]
+      rw [min_view _ _ (h a) (h b) hl.1.2 hl.2]
+    · rfl
+  | max d a b => simp only [stepM, stepS, max_view]
+  | rt d a => simp only [stepM, stepS, spec_toF64_eq, spec_ofF64_eq]
+  | cmp a b =>
+    simp only [stepM, stepS, lt_spec, gt_spec, le_spec, ge_spec, eq_spec, partialCmp_spec, Rlib.F80.bne]
+  | copy d a => rfl
+  | const d o => cases o <;> rfl
+  | init => rfl
+
+/-- every register keeps a significand below `2^64` (so `canonBits` stays faithful along the program) -/
+theorem prog_step_wf (R : Regs) (op : Op) (h : R.wf) : (stepM R op).regs.wf := by
+  cases op with
+  | bin o d a b => exact Regs.set_wf R h _ _ (BinOp.model_sig_lt _ _ _)
+  | asg o d b => exact Regs.set_wf R h _ _ (BinOp.model_sig_lt _ _ _)
+  | neg d a => exact Regs.set_wf R h _ _ (h a)
+  | abs d a => exact Regs.set_wf R h _ _ (by show (Rlib.F80.abs (R a).v).sig < 2 ^ 64; rw [abs_sig]; exact h a)
+  | min d a b => exact Regs.set_wf R h _ _ (min_sig_lt _ _ (h a) (h b))
+  | max d a b => exact Regs.set_wf R h _ _ (max_sig_lt _ _ (h a) (h b))
+  | rt d a => exact Regs.set_wf R h _ _ (ofF64_sig_lt _)
+  | cmp a b => exact h
+  | copy d a => exact Regs.set_wf R h _ _ (h a)
+  | const d o => exact Regs.set_wf R h _ _ (by cases o <;> decide)
+  | init => exact h
+
+/-- whole programs: the list of views the driver prints as `V` equals the list it prints as `S` -/
+theorem prog_run_view (ops : List Op) (R : Regs) (h : R.wf) : (runM R ops).map (·.2) = runS R ops := by
+  induction ops generalizing R with
+  | nil => rfl
+  | cons op rest ih =>
+    simp only [runM, runS, List.map_cons]
+    rw [prog_step_view R op h, ih _ (prog_step_wf R op h)]
+
+/-- the registers the driver starts from (parsed tokens) are well formed -/
+theorem prog_init_wf (a b c d : Nat) :
+    (Regs.ofList (F80.ofNat a) (F80.ofNat b) (F80.ofNat c) (F80.ofNat d)).wf := by
+  intro i
+  match i with
+  | 0 => exact ofNat_sig_lt a
+  | 1 => exact ofNat_sig_lt b
+  | 2 => exact ofNat_sig_lt c
+  | 3 => exact ofNat_sig_lt d
+
+/-- `!=` is the provided method: the negation of `==`, hence `true` exactly when IEEE-unequal or unordered -/
+theorem ne_spec (a b : F80) : Rlib.F80.bne a b = !specEq a b := by
+  unfold Rlib.F80.bne; rw [eq_spec]
+
 /-! non-vacuity / the former counterexamples (F7), evaluated on the model -/
 -- NaN <= 1.0 is false, partial_cmp(NaN, 1.0) = None
 example : le ⟨false, 0x7FFF, 0xC000000000000000⟩ one = false := by decide
@@ -387,5 +471,15 @@ example : mul ⟨false, 0x7FFE, two63⟩ ⟨false, 0x4000, two63⟩ = ⟨false, 
 example : mul ⟨false, 0, 1⟩ ⟨false, 0x3FFE, two63⟩ = ⟨false, 0, 0⟩ ∧ mul ⟨false, 0, 3⟩ ⟨false, 0x3FFE, two63⟩ = ⟨false, 0, 2⟩ := by decide
 example : add (neg one) one = ⟨false, 0, 0⟩ ∧ add ⟨true, 0, 0⟩ ⟨true, 0, 0⟩ = ⟨true, 0, 0⟩ ∧ sub ⟨true, 0, 0⟩ zero = ⟨true, 0, 0⟩ := by decide
 example : specDiv one ⟨false, 0x4000, 0xC000000000000000⟩ = ⟨false, 0x3FFD, 0xAAAAAAAAAAAAAAAB⟩ := by decide
+
+-- programs: r0 = 1, r1 = 3: r2 = r0 / r1; r2 *= r1 gives 1 again; abs(-0) stays -0 and is loose, so 1 / abs(-0) is hidden;
+-- a NaN compared with itself (same object) is unordered and `!=`
+example : (runM (Regs.ofList one ⟨false, 0x4000, 0xC000000000000000⟩ ⟨true, 0, 0⟩ ⟨false, 0x7FFF, 0xC000000000000000⟩)
+    [.bin .div 2 0 1, .asg .mul 2 1, .cmp 2 0]).map (·.2)
+  = [.bits ⟨false, 0x3FFD, 0xAAAAAAAAAAAAAAAB⟩, .bits one, .rel false false true true true false (some .eq)] := by decide
+example : (runM (Regs.ofList one one ⟨true, 0, 0⟩ ⟨false, 0x7FFF, 0xC000000000000000⟩)
+    [.abs 1 2, .bin .div 0 0 1, .cmp 3 3]).map (·.2)
+  = [.value (some 0), .hidden, .rel false false false false false true none] := by decide
+example : (Regs.ofList one one zero zero).wf := by intro i; match i with | 0 | 1 | 2 | 3 => decide
 
 end Rlib.C18
